@@ -541,7 +541,7 @@ fn run(cfg: &Cfg) -> Report {
     }
     rep.extra("alphabet_size", json!(a.len()));
     rep.extra("corpus_lines", json!(corpus().len()));
-    rep.assume("nesting depth and operator runs are bounded (<= 60 levels / 1200 operators): deeper inputs overflow the native stack, which is recorded as a known finding and cannot be observed in-process");
+    rep.assume("nesting depth and operator runs are bounded (<= 60 levels / 1200 operators): deeper inputs overflow the native stack of numbat's recursive-descent parser; that aborts the process, cannot be observed in-process and is a stated gap of this check (DESIGN.md section 8)");
     rep
 }
 
